@@ -68,7 +68,8 @@ def c10_case(draw):
             "odd": draw(st.sampled_from([None] * 8 + observe.ODD_NAMES)),
             "odd_config": draw(st.sampled_from([None] * 12 + observe.ODD_NAMES)),
             "raise_kind": draw(st.sampled_from([None] * 9 + sorted(M.EXC_NAMES))),
-            "double_fault": draw(st.sampled_from([False] * 9 + [True])), "fresh_process": draw(st.sampled_from([False] * 11 + [True]))}
+            "double_fault": draw(st.sampled_from([False] * 9 + [True])),
+            "module_ref": draw(st.sampled_from([False] * 5 + [True])), "fresh_process": draw(st.sampled_from([False] * 11 + [True]))}
 
 
 def _files() -> Dict[str, str]:
@@ -137,6 +138,12 @@ def check_case(case: Dict[str, Any], col: Collector, workroot: str = ".") -> Non
             if n["p"] in ("VEchoProbe", "FloatMultiplyOperation", "FloatAddOperation", "FloatMultiplyOperationWithDefault", "VInPlaceScaleOp") and not n.get("sweep"):
                 n.setdefault("params", {})[M.LIB[n["p"]]["params"][0][0]] = {"$odd": case["odd_config"]}
                 break
+    elif case.get("module_ref"):
+        # a short-name node followed by a `module:Class` reference into a module that also defines that short name
+        m0 = M.run(a)
+        if m0["ok"] and M.kind_of(m0["data"]) == "Float":
+            a = copy.deepcopy(a)
+            a["nodes"] += [{"p": "FloatSquareOperation"}, {"p": "verif.lib.shadow:VShadowOnly"}]
     elif case.get("double_fault"):
         # two configuration errors: an unknown parameter on the first data node, an unresolvable processor at the end
         a = copy.deepcopy(a)
@@ -263,7 +270,7 @@ def _judge(case, a, m, ref, r1, r2, files_ref, files_1, files_2, col) -> None:
     labs = labels_of(a, m) + ["detail:" + case.get("detail", "hash"), "history:%d" % len(case.get("others", [])),
                               "reuse" if case.get("reuse") else "fresh", "mode:" + case.get("mode", "file"),
                               "shared_orchestrator" if case.get("shared_orchestrator") else "own_orchestrator"] + \
-        (["nonfinite_parameter"] if case.get("nonfinite") else ["odd_value", "odd:" + case["odd"]] if case.get("odd") else [])
+        (["module_class_reference"] if case.get("module_ref") else ["nonfinite_parameter"] if case.get("nonfinite") else ["odd_value", "odd:" + case["odd"]] if case.get("odd") else [])
     ctx_write = any(e.get("post") is not None and not observe.equal(e["pre"], e["post"]) for e in m["log"])
     nontriv = len(a["nodes"]) >= 2 and ctx_write and (bool(case.get("others")) or bool(case.get("reuse")))
     col.count(case, labs, nontriv)
